@@ -381,6 +381,14 @@ pub struct BlindCase {
     pub lwe_base2k: usize,
     /// true: crafted noiseless samples (family blind-mask); false: library-encrypted messages
     pub crafted: bool,
+    /// precision of the lookup table: K_LUT (one limb, narrower than the accumulator) or K_RES (as many limbs as the
+    /// accumulator, so that nothing but the rotation itself overwrites the garbage the receiver held before)
+    #[serde(default = "default_k_lut")]
+    pub k_lut: usize,
+}
+
+fn default_k_lut() -> usize {
+    K_LUT
 }
 
 struct BlindCtx<B: Bk> {
@@ -593,7 +601,7 @@ where
         .map(|x| i128::try_from(torus::centered_mod_pow2(x, K_RES)).unwrap())
         .collect();
     let bound = noise_bound_scaled(c.n_glwe, c.n_lwe);
-    let up = K_RES - K_LUT; // table values are scaled by 2^K_LUT
+    let up = K_RES - c.k_lut; // table values are scaled by 2^k_lut
     // which rotations of the table does the result equal (within the bound)?
     let matches_rot = |t: i64| -> (bool, i128) {
         let mut worst = 0i128;
@@ -697,7 +705,7 @@ where
         let mut lut = LookupTable::alloc(&LookUpTableLayout {
             n: (c.n_glwe as u32).into(),
             extension_factor: c.ext,
-            k: (K_LUT as u32).into(),
+            k: (c.k_lut as u32).into(),
             base2k: (BR_BASE2K as u32).into(),
         });
         if let Err(msg) = guarded(|| {
@@ -707,11 +715,13 @@ where
             rec.fail(json!({"op": "lookup_table_set", "backend": B::NAME, "kind": "panic", "case": c, "inner": {"p": p}, "panic": msg}));
             continue;
         }
-        let model = LutModel::new(d, &f, p + 1, K_LUT);
+        let model = LutModel::new(d, &f, p + 1, c.k_lut);
         // the table the real rotation starts from must be the defined one (also checked exhaustively by clear/*)
         {
             let e0 = extended(&read_table(&lut));
-            if (0..d).any(|pos| e0[0][pos] != model.pre[pos]) {
+            // value over all limbs of the table (one limb for K_LUT, two for K_RES)
+            let val = |pos: usize| -> i64 { e0.iter().fold(0i64, |acc, limb| (acc << BR_BASE2K) + limb[pos]) };
+            if (0..d).any(|pos| val(pos) != model.pre[pos]) {
                 rec.fail(json!({"op": "lookup_table_set", "backend": B::NAME, "kind": "set_wrong_value", "case": c, "inner": {"p": p}}));
                 continue;
             }
@@ -844,18 +854,21 @@ fn blind_cases<B: Bk>(tier: Tier, crafted: bool) -> Vec<BlindCase> {
                 for left in [true, false] {
                     for &key_seed in &seeds {
                         for &lwe_base2k in &lwe_b {
-                            out.push(BlindCase {
-                                backend: B::NAME.into(),
-                                n_glwe,
-                                n_lwe,
-                                block,
-                                dist,
-                                ext,
-                                left,
-                                key_seed,
-                                lwe_base2k,
-                                crafted,
-                            });
+                            for k_lut in [K_LUT, K_RES] {
+                                out.push(BlindCase {
+                                    backend: B::NAME.into(),
+                                    n_glwe,
+                                    n_lwe,
+                                    block,
+                                    dist,
+                                    ext,
+                                    left,
+                                    key_seed,
+                                    lwe_base2k,
+                                    crafted,
+                                    k_lut,
+                                });
+                            }
                         }
                     }
                 }
@@ -874,7 +887,7 @@ where
     let cases = blind_cases::<B>(run.tier, false);
     run.family(
         &format!("blind/{}", B::NAME),
-        "outer = (N_glwe in {32,64}, (n_lwe, block, distribution), ext in {1,2,4}, direction, key seed, LWE base2k); inner = p in 1..5, every message of Z_{2^p}, 2 error draws; checks: mod_switch_2n within 1 unit of the definition per coefficient; exact phase of the result == table rotated by the library's own index at every coefficient within the worst-case bound n_lwe*2*((rank+1)*dnum*N*2^(b-1)*20*2^-k_brk + (1+rank*N)*2^-k_res); index within (1+hw) units of the exact index; Left: constant coefficient == f(m) when the budget is below half a step",
+        "outer = (N_glwe in {32,64}, (n_lwe, block, distribution), ext in {1,2,4}, direction, key seed, LWE base2k, table precision in {19, 38}); inner = p in 1..5, every message of Z_{2^p}, 2 error draws; checks: mod_switch_2n within 1 unit of the definition per coefficient; exact phase of the result == table rotated by the library's own index at every coefficient within the worst-case bound n_lwe*2*((rank+1)*dnum*N*2^(b-1)*20*2^-k_brk + (1+rank*N)*2^-k_res); index within (1+hw) units of the exact index; Left: constant coefficient == f(m) when the budget is below half a step",
         cases,
         |c, rec| exec_blind::<B>(c, None, true, rec),
     );
@@ -890,7 +903,7 @@ where
 
 pub fn run(run: &mut Run) {
     run.assume("clear path: table lengths are the powers of two dividing the domain and <= N (lookup_table_set asserts f.len() <= N); scale k <= limbs * base2k; rotation amounts in (-2D, 2D) for the main family (blind rotation only produces those), wider amounts in clear-wide");
-    run.assume("blind path: key / accumulator / table radix 19 with k_brk = 57 (dnum 2), k_res = 38, k_lut = 19, k_lwe = 24 as in the library's blind-rotation test; rank 1; ternary GLWE secret; LWE radix in {19, 12, 4}; default sigma 3.2 truncated at 6 sigma, so |e| <= 20 per error coefficient");
+    run.assume("blind path: key / accumulator / table radix 19 with k_brk = 57 (dnum 2), k_res = 38, k_lut = 19 as in the library's blind-rotation test and k_lut = 38 (table as wide as the accumulator; receiver and scratch garbage-filled before every call), k_lwe = 24; rank 1; ternary GLWE secret; LWE radix in {19, 12, 4}; default sigma 3.2 truncated at 6 sigma, so |e| <= 20 per error coefficient");
     run.assume("the extended algorithm (ext > 1) is only defined for block-binary LWE secrets (asserted by the library); block size 1 is the standard binary algorithm");
     run.assume("an admissible modulus switch rounds every coefficient to strictly less than one unit from value * 2D (floor, ceiling or nearest on any number of leading limbs); the rotation actually performed must be exactly the one of the library's own mod-switched coefficients");
     for_backends!(fam_clear(run));
